@@ -322,6 +322,45 @@ var alphabet = map[string]opFn{
 		tensor.Add(c, 1.0, tensor.UseUnsafe())
 		return flat(c)
 	},
+	// tensor-scalar operations on own tensors of every element WIDTH (1, 2, 4, 8, 16 bytes): the scalar pools are per width
+	"ScalarWidths": func(s *sharedSet, p *tensor.Dense, r *rand.Rand) []float64 {
+		k := r.Intn(5)
+		var t *tensor.Dense
+		var sc interface{}
+		switch k {
+		case 0:
+			t, sc = tensor.New(tensor.WithShape(4), tensor.WithBacking([]int8{1, 2, 3, 4})), int8(2)
+		case 1:
+			t, sc = tensor.New(tensor.WithShape(4), tensor.WithBacking([]int16{1, 2, 3, 4})), int16(3)
+		case 2:
+			t, sc = tensor.New(tensor.WithShape(4), tensor.WithBacking([]float32{1, 2, 3, 4})), float32(4)
+		case 3:
+			t, sc = tensor.New(tensor.WithShape(4), tensor.WithBacking([]float64{1, 2, 3, 4})), float64(5)
+		default:
+			t, sc = tensor.New(tensor.WithShape(4), tensor.WithBacking([]complex128{1, 2, 3, 4})), complex128(6)
+		}
+		res, err := tensor.Add(t, sc)
+		if err != nil {
+			return []float64{-12345}
+		}
+		d := res.(*tensor.Dense)
+		out := []float64{float64(k)}
+		for i := 0; i < 4; i++ {
+			switch v := d.Get(i).(type) {
+			case int8:
+				out = append(out, float64(v))
+			case int16:
+				out = append(out, float64(v))
+			case float32:
+				out = append(out, float64(v))
+			case float64:
+				out = append(out, v)
+			case complex128:
+				out = append(out, real(v))
+			}
+		}
+		return out
+	},
 	"Repeat": func(s *sharedSet, p *tensor.Dense, r *rand.Rand) []float64 {
 		return must(tensor.Repeat(s.ts[[]string{"M", "MT", "MS"}[r.Intn(3)]], r.Intn(2), 2))
 	},
@@ -571,8 +610,9 @@ func main() {
 			want := make([][][]float64, *g)
 			for i := range progs {
 				progs[i] = program(*seed*1000+int64(round*100+i), *n)
-				want[i] = runProgram(s, int64(i), progs[i], false) // the result each goroutine obtains running alone
 			}
+			// the concurrent run comes FIRST: in the first round the library's lazily initialised state (pools created on
+			// first use of an element width, ...) is still cold, which is when its initialisation can race
 			got := make([][][]float64, *g)
 			var wg sync.WaitGroup
 			start := make(chan struct{})
@@ -592,6 +632,9 @@ func main() {
 			case <-time.After(120 * time.Second):
 				fmt.Println("MONITOR-HANG round", round)
 				os.Exit(3)
+			}
+			for i := range progs {
+				want[i] = runProgram(s, int64(i), progs[i], false) // the result each goroutine obtains running alone
 			}
 			for i := range progs {
 				if !reflect.DeepEqual(got[i], want[i]) {
